@@ -176,6 +176,22 @@ class Eraser(ast.NodeTransformer):
             return ast.Name(id="__E" + n.id[4:], ctx=ast.Load())
         return n
 
+    def visit_YieldFrom(self, n):
+        # R17: (yield from __ptera_yielding*(__ptera_frame, V))  |->  (yield V)
+        # the helper is a generator that yields V exactly once and returns what it was sent, forwards what is thrown into it and closes when
+        # it is closed (contract of proceed.yielding, bounded unit `proceed.yielding-shell`; PEP 380 for the delegation): for the generator
+        # and for its consumer this is `yield V`
+        v = n.value
+        if (isinstance(v, ast.Call) and isinstance(v.func, ast.Name) and v.func.id.startswith("__ptera_yielding") and len(v.args) == 2 and not v.keywords
+                and isinstance(v.args[0], ast.Name) and v.args[0].id == FRAME):
+            return ast.Yield(value=self.visit(v.args[1]))
+        # R18: (yield from __ptera_delegating*(__ptera_frame, V))  |->  (yield from V)   (same contract: the helper is PEP 380's expansion of
+        # `yield from V` with each item yielded through the helper of R17)
+        if (isinstance(v, ast.Call) and isinstance(v.func, ast.Name) and v.func.id.startswith("__ptera_delegating") and len(v.args) == 2 and not v.keywords
+                and isinstance(v.args[0], ast.Name) and v.args[0].id == FRAME):
+            return ast.YieldFrom(value=self.visit(v.args[1]))
+        return self.generic_visit(n)
+
     def visit_Call(self, n):
         if is_interact(n):
             it = read_interact(n)
